@@ -204,6 +204,7 @@ func (c *IAMCache) GetUserAccount(access string) (Account, error) {
 
 	a, err := c.service.GetUserAccount(access)
 	if err != nil {
+		verifhook.At("iam.missed", "access", access)
 		return Account{}, err
 	}
 
